@@ -103,6 +103,27 @@ def c03_boundary():
                         rules = [{"remote": 0, "mtype": "CON", "nth": k, "after": 777, "do": do, "ptype": ptype}]
                         scripts.append(dict(base, events=[sub, far_end([sub])], rules=rules,
                                             tag=f"{do}:{ptype}@copy{k}:{at}:{factor}:{mr}"))
+    # the two message-ID spaces: the peer has recently used, for a message of its own (request, ping), the very
+    # message ID our next CON gets; its ACK / RST for our CON must still be taken as such
+    for theirs in ("CON-req", "NON-req", "CON-ping", "dup-req"):
+        for do in ("ack", "rst", "sep"):
+            for k in (1, 2):
+                at, factor, mr = TUNINGS[0]
+                ev = []
+                if theirs == "CON-ping":
+                    ev.append(["R", 300, 0, False, "CON", 0, 4096, "-", None, 0])
+                else:
+                    ev.append(request_in(300, 0, 4096, "c1", mtype="NON" if theirs == "NON-req" else "CON"))
+                    if theirs == "dup-req":
+                        ev.append(request_in(340, 0, 4096, "c1", mtype="CON"))
+                    ev.append(respond(400, 0, body=9))
+                sub = submit(1000, 0, 0, rel=True, maxretr=mr, tuning=[at, factor])
+                rules = [{"remote": 0, "mtype": "CON", "nth": k, "after": 500, "do": "ack" if do == "sep" else do}]
+                if do == "sep":     # empty ACK, then the response as a message of its own
+                    rules.append({"remote": 0, "mtype": "CON", "nth": k, "after": 900, "do": "sep", "pmid": 9000,
+                                  "body": 6})
+                scripts.append({"draws": [at], "mid": 4096, "events": ev + [sub, far_end([sub])], "rules": rules,
+                                "tag": f"mid-collision:{theirs}:{do}@copy{k}"})
     return scripts
 
 
@@ -238,6 +259,22 @@ def c14_boundary():
         ev.append(far_end(ev))
         scripts.append({"events": ev, "rules": rules, "draws": [2 * M + 7 * i for i in range(6)],
                         "tag": "nstart:" + variant})
+    # the peer has just used, for requests / pings of its own, the message IDs our next CONs get: its empty ACK or
+    # RST still ends our exchange and releases the held-back messages
+    for theirs in ("CON", "NON", "ping"):
+        for do in ("ack", "rst"):
+            ev = []
+            for i, mid in enumerate((4096, 4097)):
+                if theirs == "ping":
+                    ev.append(["R", 300 + 40 * i, 0, False, "CON", 0, mid, "-", None, 0])
+                else:
+                    ev.append(request_in(300 + 40 * i, 0, mid, "c%d" % i, mtype=theirs))
+                    ev.append(respond(500 + 40 * i, i, body=9))
+            ev += [submit(1000, 0, 0, rel=True), submit(1010, 1, 0, rel=True), submit(1020, 2, 0, rel=True)]
+            rules = [{"remote": 0, "mtype": "CON", "nth": k, "do": do, "after": 5000} for k in (1, 2, 3)]
+            ev.append(far_end(ev))
+            scripts.append({"events": ev, "rules": rules, "mid": 4096, "draws": [2 * M + 7 * i for i in range(6)],
+                            "tag": f"nstart:mid-collision:{theirs}:{do}"})
     return scripts
 
 
@@ -451,6 +488,13 @@ def c18_random(rng, cfg):
             events.append(respond(clock.at(t + rng.choice([50000, 200000, 3 * M])), srv, body=i,
                                   last=rng.random() < 0.6, obs=rng.choice([None, 1])))
         srv += 1
+        if rng.random() < 0.3:
+            # the same peer issues a new request on the same token (renewed observation, recycled token) while the
+            # first one is still being served
+            prev = events[-1] if events[-1][0] == "R" else events[-2]
+            events.append(request_in(clock.at(t + rng.choice([7, 150000, 4 * M])), prev[2], 760 + i, prev[7],
+                                     mtype=mtype, obs=rng.choice([None, 0]), body=20 + i))
+            srv += 1
     events.sort(key=lambda e: e[1])
     horizon = events[-1][1] + 2 * M
     ts = clock.at(rng.choice([rng.randrange(1, horizon), events[rng.randrange(len(events))][1] + rng.choice([1, 1000, 104858 - 1, 104858 + 1])]))
@@ -487,6 +531,70 @@ def c18_handler(rng):
     events.append(far_end(events))
     return {"events": events, "rules": [], "draws": [], "tag": "handler-request",
             "oracle_only": "handler-awaits-own-request", "second_context": True}
+
+
+def c18_obs_cancelled(rng):
+    """observing requests whose observation the application cancels (before the first response, or after it),
+    other requests outstanding, then shutdown.  Oracle-only (the model has no ClientObservation objects)."""
+    clock = Clock(rng)
+    events, rules = [], []
+    n = rng.randrange(1, 4)
+    for r in range(n):
+        t = clock.after(100, M)
+        observing = r == 0 or rng.random() < 0.5
+        events.append(submit(t, r, r % 3, rel=rng.random() < 0.7, observing=observing))
+        if observing and (r == 0 or rng.random() < 0.7):
+            events.append(["O", clock.at(t + rng.choice([1, 500, 3 * M])), r])
+        if rng.random() < 0.4:
+            rules.append({"remote": r % 3, "mtype": None, "nth": 1, "after": rng.choice([300, 2 * M]),
+                          "do": "piggy" if events[-1][0] != "O" and rng.random() < 0.5 else "ack",
+                          "obs": rng.choice([None, 5]), "body": 7})
+    events.sort(key=lambda e: e[1])
+    ts = clock.at(events[-1][1] + rng.choice([1, 1000, 3 * M]))
+    events.append(["X", ts])
+    if rng.random() < 0.6:
+        events.append(submit(clock.at(ts + rng.randrange(1, 3 * M)), 50, 0, rel=True))
+    events.sort(key=lambda e: e[1])
+    events.append(far_end(events))
+    return {"events": events, "rules": rules, "draws": [], "tag": "observation-cancelled",
+            "oracle_only": "application-cancelled-observation", "second_context": True}
+
+
+def c18_obs_consumer(rng):
+    """an established observation the application iterates over with `async for`; notifications arrive around --
+    and in the very loop iteration of -- the shutdown call.  Oracle-only."""
+    clock = Clock(rng)
+    events = []
+    tok = "21"          # first token of the pinned counter (script token 32 -> 0x21)
+    events.append(submit(1000, 0, 0, rel=True, observing=True))
+    rules = [{"remote": 0, "mtype": "CON", "nth": 1, "after": 500, "do": "piggy", "obs": 1, "body": 1}]
+    t = 1000 + 500
+    mid = 5000
+    for i in range(rng.randrange(0, 4)):
+        t = clock.at(t + rng.choice([1, 1000, M]))
+        events.append(["R", t, 0, False, "NON", CONTENT, mid, tok, 2 + i, 2 + i])
+        mid += 1
+    ts = clock.at(t + rng.choice([1, 1000, 2 * M]))
+    note = ["R", ts, 0, False, rng.choice(["NON", "CON"]), CONTENT, mid, tok, 50, 50]
+    k = rng.randrange(6)
+    if k == 0:
+        # the application calls shutdown(); the datagram is dispatched later in the same loop iteration
+        events.append(["N", ts, [["X", ts, rng.random() < 0.7], note]])
+    elif k == 1:
+        events.append(["N", ts, [note, ["X", ts, rng.random() < 0.7]]])
+    elif k == 2:
+        events += [["N", ts, [note]], ["X", ts + 1]]
+    elif k == 3:
+        events += [["X", ts], ["N", ts + 1, [note]]]
+    elif k == 4:
+        events.append(["N", ts, [note, ["R", ts, 0, False, "NON", CONTENT, mid + 1, tok, 51, 51],
+                                 ["X", ts, rng.random() < 0.7]]])
+    else:
+        events.append(["X", ts])
+    events.sort(key=lambda e: e[1])
+    events.append(far_end(events))
+    return {"events": events, "rules": rules, "draws": [], "tag": "observation-consumer", "consume": True,
+            "oracle_only": "application-iterates-observation", "second_context": True}
 
 
 def c02_boundary():
